@@ -1,8 +1,48 @@
 """C11 - start, restart, exit, quit and detach leave the world in the promised state."""
+import vlib
+import sesslib
 from checks import c03
+from checks import sess_common as sc
+
+
+def mt_leg(rep, tier):
+    """Quit with several live threads (stopped at a breakpoint / after restart / not started):
+    no task of the launched program may remain.  Judged by TraceSession's `drop` clause."""
+    src = vlib.VERIF / "puppets" / "mt" / "mt7.rs"
+    exe = sesslib.build_puppet(src)
+    ref = sesslib.Puppet(sesslib.SESS_SRC / "rec1.rs")          # any execution: `drop` does not look at X
+    work_line = next(n + 1 for n, l in enumerate(src.read_text().splitlines()) if "COUNT.fetch_add" in l)
+    shapes = [
+        [{"cmd": "drop"}],
+        [{"cmd": "break_line", "file": "mt7.rs", "line": work_line}, {"cmd": "start"}, {"cmd": "drop"}],
+        [{"cmd": "break_line", "file": "mt7.rs", "line": work_line}, {"cmd": "start"}, {"cmd": "continue"},
+         {"cmd": "continue"}, {"cmd": "drop"}],
+        [{"cmd": "break_line", "file": "mt7.rs", "line": work_line}, {"cmd": "start"}, {"cmd": "restart"}, {"cmd": "drop"}],
+        [{"cmd": "break_line", "file": "mt7.rs", "line": work_line}, {"cmd": "start"},
+         {"cmd": "remove_line", "file": "mt7.rs", "line": work_line}, {"cmd": "continue"}, {"cmd": "drop"}],
+    ]
+    nthreads = [2, 5] if tier == "quick" else [1, 2, 5, 16, 48]
+    n = 0
+    for nt in nthreads:
+        for k, cmds in enumerate(shapes):
+            scr = {"tick": 0, "src": "mt7.rs", "probes": ["tasks"], "cmds": cmds, "args": [str(nt)]}
+            rc, err, obs = sesslib.run_session(exe, scr, f"C11-mt-{nt}-{k}")
+            n += 1
+            evs = [e for e in sesslib.to_events(ref, obs) if e["cmd"] == "drop"]
+            if not evs:
+                rep.mismatch("session_died", "session", actual=err[-300:], script=scr, puppet="mt7", threads=nt)
+                continue
+            viol, _ = sesslib.judge(ref, [dict(evs[0], k=0)], f"C11-mt-{nt}-{k}")
+            for v in viol:
+                rep.mismatch(v["class"], v["action"], expected=v["expected"], actual=v["actual"], script=scr,
+                             puppet="mt7", threads=nt)
+    return n
 
 
 def run(rep, tier, replay):
-    return c03.run_family(rep, tier, replay, "C11", mix="life", probes=["text", "tasks"],
+    extra = {}
+    if not replay:
+        extra["mt_sessions"] = mt_leg(rep, tier)
+    return c03.run_family(rep, tier, replay, "C11", mix="life", probes=["text", "tasks"], extra_cov=extra,
                           quick=dict(maxcmd=10, maxbps=2, ncands=3, nhist=8, maxbk=3, lifecycle=True, attach=True),
-                          thorough=dict(maxcmd=14, maxbps=3, ncands=5, nhist=60, maxbk=4, lifecycle=True, attach=True))
+                          thorough=dict(maxcmd=14, maxbps=3, ncands=5, nhist=40, maxbk=4, lifecycle=True, attach=True))
